@@ -1036,9 +1036,14 @@ def check_closure(prog, report):
     fi = prog.func(M, 'Mesh.refine_axis')
     fn = fi.node
     params = fi.params
-    if len(params) != 3:
+    if len(params) < 3:
         raise AnalysisError('%s: signature changed' % fi.where())
     el, ax = params[1], params[2]
+    report.check(len(params) == 3, 'R-closure', 'refine_axis signature',
+                 fi.where(),
+                 'refine_axis(elem, ax) has no switch that could disable '
+                 'the conformity closure (parameters: %s)' % params[1:],
+                 construct='refine_axis: extra parameters')
     # first non-assert statement must be the closure loop
     first = [s for s in fn.body if not isinstance(s, ast.Assert) and not (
         isinstance(s, ast.Expr) and isinstance(s.value, ast.Constant))]
@@ -1084,7 +1089,7 @@ def check_closure(prog, report):
                  fi.where(inner),
                  'the recursion bisects that neighbour in the same axis',
                  construct='refine_axis: closure recursion')
-    report.floor('R-closure', 3)
+    report.floor('R-closure', 4)
 
 
 def check_vreuse(prog, report):
